@@ -62,6 +62,11 @@ func (a *ArgMax) Init(n *onnx.NodeProto) error {
 
 // Apply applies the argmax operator.
 func (a *ArgMax) Apply(inputs []tensor.Tensor) ([]tensor.Tensor, error) {
+	rank := len(inputs[0].Shape())
+	if a.axis < -rank || a.axis > rank-1 {
+		return nil, ops.ErrAxisOutOfRange(rank, rank, a.axis)
+	}
+
 	axis := ops.ConvertNegativeAxis(a.axis, len(inputs[0].Shape()))
 
 	reduced, err := tensor.Argmax(inputs[0], axis)
